@@ -125,20 +125,39 @@ def body_batch(case, rec):
 
     style, rules, subs = _batch_inputs(case)
     data = [{"smi": s} for s in subs] if case.get("as_dict") else list(subs)
-    br = BatchReactor(
-        data,
-        host_key="smi" if case.get("as_dict") else None,
-        strategy=case["strategy"],
-        cache_enabled=case["cache"],
-        cache_maxsize=case["cache_max"],
-        entry_n_jobs=case["entry_jobs"],
-        rule_n_jobs=case["rule_jobs"],
-        parallel_rules=case["rule_jobs"] > 1,
-        enable_logging=True,
-        **rx.mode_for(style),
-    )
-    got = br.fit(rules, invert=case["invert"])
-    rec.show(dict(entries=[s[:60] for s in subs], templates=case["templates"], config={k: case[k] for k in ("cache", "cache_max", "entry_jobs", "rule_jobs", "strategy", "invert")}))
+    def run(entry_jobs, rule_jobs):
+        return BatchReactor(
+            data,
+            host_key="smi" if case.get("as_dict") else None,
+            strategy=case["strategy"],
+            pre_filter_engine=case.get("prefilter"),
+            cache_enabled=case["cache"],
+            cache_maxsize=case["cache_max"],
+            entry_n_jobs=entry_jobs,
+            rule_n_jobs=rule_jobs,
+            parallel_rules=rule_jobs > 1,
+            enable_logging=True,
+            **rx.mode_for(style),
+        ).fit([r.copy() for r in rules], invert=case["invert"])
+
+    got = run(case["entry_jobs"], case["rule_jobs"])
+    rec.show(dict(entries=[s[:60] for s in subs], templates=case["templates"], config={k: case.get(k) for k in ("cache", "cache_max", "entry_jobs", "rule_jobs", "strategy", "invert", "prefilter")}))
+    if case.get("prefilter"):
+        # with a rule pre-filter the reference is the SAME configuration run serially: the number of workers must
+        # not matter (whether the filter itself keeps every applicable rule is not part of this property)
+        serial = run(1, 1)
+        rec.label(f"prefilter={case['prefilter']}")
+        key = "syn_bw" if case["invert"] else "syn_fw"
+        rec.nt(len({tuple(r.get(key, [])) for r in serial if r.get(key)}) >= 2)
+        if got != serial:
+            bad = next((k for k, (a, b) in enumerate(zip(got, serial)) if a != b), None)
+            raise Violation(
+                "batch:parallel-vs-serial",
+                f"pre_filter_engine={case['prefilter']} invert={case['invert']} entry_jobs={case['entry_jobs']} rule_jobs={case['rule_jobs']}: "
+                f"entry {bad} ({subs[bad][:60] if bad is not None else '?'}) differs from the serial run of the same configuration "
+                f"({len(got[bad].get(key, [])) if bad is not None else '?'} vs {len(serial[bad].get(key, [])) if bad is not None else '?'} results)",
+            )
+        return
     _compare(case, rec, got, style, rules, subs, "batch")
 
 
@@ -358,6 +377,11 @@ def batch_cases(draw, parallel=False, adversarial=False):
     case["cache"] = draw(st.booleans())
     case["as_dict"] = draw(st.booleans())
     if parallel:
+        case["prefilter"] = draw(st.sampled_from([None, None, "nx", "turbo", "sing"]))
+        if case["prefilter"]:
+            # larger batches: chunked dispatch only differs from per-entry dispatch beyond 2 x workers entries
+            extra = draw(st.lists(st.sampled_from(cand), min_size=0, max_size=8))
+            case["entries"] = (case["entries"] + [[j, None] for j in extra])[:12]
         case["rule_jobs"] = draw(st.sampled_from([1, 2, 3, 4]))
         # rule-level parallelism is only active with a serial entry loop (allow_nested is False)
         case["entry_jobs"] = 1 if case["rule_jobs"] > 1 and draw(st.booleans()) else draw(st.sampled_from([1, 2, 4]))
